@@ -39,6 +39,8 @@ def replay_behaviour(beh, want=('C01', 'C02', 'C03'), canon=False, variant=None)
                 if clause:
                     findings.append(dict(prop='C01', clause='init-' + clause, step=-1, op='from_ndarray'))
                     return findings, 0, records
+    for s_new, s_src in beh.get('shared0', []):
+        pool[s_new] = pool[s_src].copy(deep=False)  # initial shallow copy (spec: InitShared)
     leg_registry = {}
 
     def register_legs():
